@@ -29,7 +29,7 @@ Kinds == { "none",
   "repo", "penv_value", "penv_removed", "penv_shadowed",
   \* semantic: record and key
   "rec_alg", "fields_drop_mandatory", "fields_drop_env", "fields_add_env", "fields_add_unknown", "fields_empty",
-  "value_splice", "value_bitflip", "key_other_same_alg", "key_other_alg", "keyset_without_signer",
+  "value_splice", "value_bitflip", "key_other_same_alg", "key_other_alg", "keyset_without_signer", "keyset_empty", "plug_source_suffix",
   \* non-semantic
   "env_nil_vs_empty", "plugins_nil_vs_empty", "matrix_nil_vs_empty", "plug_source_spelling", "plug_cfg_empty_vs_null",
   "venv_extra_unsigned", "fields_permuted", "fields_duplicate", "keyset_signer_plus_others" }
@@ -46,6 +46,7 @@ MutContent(o, kind) ==
       [] kind = "plug_remove" -> IF Len(o.plugins.l) > 0 THEN [o EXCEPT !.plugins = Plug(FALSE, Tail(o.plugins.l))] ELSE NA
       [] kind = "plug_reorder" -> IF Len(o.plugins.l) = 2 THEN [o EXCEPT !.plugins = Plug(FALSE, <<o.plugins.l[2], o.plugins.l[1]>>)] ELSE NA
       [] kind = "plug_source" -> IF Len(o.plugins.l) > 0 /\ o.plugins.l[1].src = "short" THEN [o EXCEPT !.plugins = SetPlugin(o.plugins, 1, [src |-> "other", cfg |-> o.plugins.l[1].cfg])] ELSE NA
+      [] kind = "plug_source_suffix" -> IF Len(o.plugins.l) > 0 /\ o.plugins.l[1].src = "short" THEN [o EXCEPT !.plugins = SetPlugin(o.plugins, 1, [src |-> "suffixed", cfg |-> o.plugins.l[1].cfg])] ELSE NA
       [] kind = "plug_config" -> IF Len(o.plugins.l) > 0 /\ o.plugins.l[1].cfg = "kv" THEN [o EXCEPT !.plugins = SetPlugin(o.plugins, 1, [src |-> o.plugins.l[1].src, cfg |-> "kw"])] ELSE NA
       [] kind = "plug_config_deep" -> IF Len(o.plugins.l) > 0 /\ o.plugins.l[1].cfg = "deep_v" THEN [o EXCEPT !.plugins = SetPlugin(o.plugins, 1, [src |-> o.plugins.l[1].src, cfg |-> "deep_w"])] ELSE NA
       [] kind = "plug_null_vs_nonempty" -> IF Len(o.plugins.l) = 2 THEN [o EXCEPT !.plugins = SetPlugin(o.plugins, 2, [src |-> o.plugins.l[2].src, cfg |-> "bfalse"])] ELSE NA
@@ -91,7 +92,8 @@ Init ==
                  algop |-> IF kind = "rec_alg" THEN "other" ELSE "same",
                  valueop |-> IF kind = "value_splice" THEN "splice" ELSE IF kind = "value_bitflip" THEN "bitflip" ELSE "same",
                  keyop |-> CASE kind = "key_other_same_alg" -> "other_same_alg" [] kind = "key_other_alg" -> "other_alg"
-                             [] kind = "keyset_without_signer" -> "without_signer" [] kind = "keyset_signer_plus_others" -> "signer_plus" [] OTHER -> "signer"]
+                             [] kind = "keyset_without_signer" -> "without_signer" [] kind = "keyset_empty" -> "empty"
+                             [] kind = "keyset_signer_plus_others" -> "signer_plus" [] OTHER -> "signer"]
 Next == FALSE /\ c' = c
 Spec == Init /\ [][Next]_c
 
